@@ -16,8 +16,8 @@ import (
 )
 
 var c13Cfgs = []hostCfg{
-	{"", -1, true, false}, {"lab", -1, true, true}, {"", 1, true, false}, {"lab", 1, true, true},
-	{"", 0, true, false}, {"lab", 0, true, false}, {"", 1, false, false}, {"lab", 0, false, true},
+	{"", -1, true, false, false}, {"lab", -1, true, true, false}, {"", 1, true, false, false}, {"lab", 1, true, true, false},
+	{"", 0, true, false, false}, {"lab", 0, true, false, false}, {"", 1, false, false, false}, {"lab", 0, false, true, false},
 }
 
 type c13State struct {
